@@ -7,9 +7,15 @@
    The per-component function of the executable model, Stack.linear_comp, IS that sum whenever the
    scalar operations are exact; its IEEE instance is compared bit for bit with linear.hpp by
    props/c03.py, which also checks the implementation against the exact rational interpolant within
-   a stated (tested, not proved) rounding bound. *)
+   a stated (tested, not proved) rounding bound.
+   Rounded part (IEEE 754 binary32 / binary64 as Flocq defines them, every N, both branches, every
+   float / double combination of coordinate and stored type): at a coordinate all of whose components are
+   integral the layer returns, per component, a finite value with the same real value as the value the
+   backend holds at that lattice point ("stored": converted through the coordinate precision when that is
+   the narrower one, and identical to the stored value otherwise) -- provided the 2^N surrounding values
+   are finite at the coordinate precision (0 * inf is NaN in the code as well). *)
 From Coq Require Import ZArith List Bool Reals Ring_theory.
-From Covfie Require Import LinearCore Stack LinearProofs LinearBridge LinearReal.
+From Covfie Require Import LinearCore Stack LinearProofs LinearBridge LinearReal FloatOps LinearLattice LinearLatticeFloat.
 Import ListNotations.
 
 Theorem C03_generic_branch_is_interpolant : forall T rO rI radd rmul rsub ropp, ring_theory rO rI radd rmul rsub ropp (@eq T) ->
@@ -49,7 +55,48 @@ Theorem C03_model_generic : forall ops rO rI radd rmul rsub ropp, ring_theory rO
   interp Z rI radd rmul rsub a (fun n => nth n (map (fun v => nth q v 0%Z) vals) rO).
 Proof. exact linear_comp_generic. Qed.
 
+(* lattice points under ROUNDED arithmetic: the executable model's function, both branches *)
+Theorem C03_lattice_exact_specialised : forall tc tv (a : list Z) (vals : list (list Z)) q,
+  isf tc -> isf tv -> a <> [] -> Forall (Zr tc) a -> length vals = (2 ^ length a)%nat ->
+  comp_fin flocq_ops Fin tc tv q vals -> Fin tv (nth q (nth O vals []) 0%Z) ->
+  Veq tv (linear_comp flocq_ops tc tv true a (map (fun x => f_sub flocq_ops tc (f_of_Z flocq_ops tc 1%Z) x) a) vals q)
+         (stored flocq_ops tc tv (nth q (nth O vals []) 0%Z)).
+Proof. exact linear_lattice_exact_special. Qed.
+Theorem C03_lattice_exact_generic : forall tc tv (a : list Z) (vals : list (list Z)) q,
+  isf tc -> isf tv -> Forall (Zr tc) a -> length vals = (2 ^ length a)%nat ->
+  comp_fin flocq_ops Fin tc tv q vals -> Fin tv (nth q (nth O vals []) 0%Z) ->
+  Veq tv (linear_comp flocq_ops tc tv false a (map (fun x => f_sub flocq_ops tc (f_of_Z flocq_ops tc 1%Z) x) a) vals q)
+         (stored flocq_ops tc tv (nth q (nth O vals []) 0%Z)).
+Proof. exact linear_lattice_exact_generic. Qed.
+(* "stored" is the stored value itself unless the coordinate type is the narrower one *)
+Theorem C03_stored_is_stored : forall tc tv v, isf tc -> isf tv -> ~ (tc = F32 /\ tv = F64) -> Fin tv v ->
+  Veq tv (stored flocq_ops tc tv v) v.
+Proof. exact stored_is_stored. Qed.
+(* the layer over an arbitrary backend, at a coordinate with integral components *)
+Theorem C03_layer_at_lattice_point : forall tc tidx tv (b : query) (c : list Z) tr vs,
+  isf tc -> isf tv -> c <> [] -> Forall (integral tc) c ->
+  linear_at flocq_ops tc tidx tv b c = Some (tr, vs) ->
+  exists vals, length vals = (2 ^ length c)%nat /\
+    forall q, (q < length vs)%nat -> comp_fin flocq_ops Fin tc tv q vals -> Fin tv (nth q (nth O vals []) 0%Z) ->
+      Veq tv (nth q vs 0%Z) (stored flocq_ops tc tv (nth q (nth O vals []) 0%Z)).
+Proof. exact linear_at_lattice. Qed.
+
+(* non-vacuity: x = 3.0f is integral, its fraction is a zero, 1.0f / 2.0f are finite corner values, and the
+   model returns the corner value there *)
+Example C03_lattice_premises :
+  integral F32 1077936128%Z /\ Zr F32 (f_sub flocq_ops F32 1077936128 (f_trunc flocq_ops F32 1077936128))%Z /\
+  comp_fin flocq_ops Fin F32 F32 0 [[1065353216]; [1073741824]]%Z /\
+  linear_comp flocq_ops F32 F32 true [0%Z] (map (fun x => f_sub flocq_ops F32 (f_of_Z flocq_ops F32 1%Z) x) [0%Z]) [[1065353216]; [1073741824]]%Z 0 = 1065353216%Z.
+Proof.
+  assert (I : integral F32 1077936128%Z) by (split; vm_compute; reflexivity).
+  split; [exact I|]. split; [apply L_frac_zero; [now left|exact (proj1 I)|exact (proj2 I)]|].
+  split; [repeat constructor|vm_compute; reflexivity].
+Qed.
+
 Print Assumptions C03_generic_branch_is_interpolant.
+Print Assumptions C03_lattice_exact_specialised.
+Print Assumptions C03_lattice_exact_generic.
+Print Assumptions C03_layer_at_lattice_point.
 Print Assumptions C03_specialised_branches_are_interpolant.
 Print Assumptions C03_interp_convex.
 Print Assumptions C03_model_generic.
